@@ -76,6 +76,14 @@ def cases(rng, tier):
         g = [{"v": rng.choice(["diana", "bob", "x1", "é"]), "typ": rng.choice(["sso", "reg", "s"]), "ts": str(rng.randint(10**8, 2 * 10**9))} for _ in range(2)]
         out.append({"t": "mut", "mode": mode, "g": g, "mut": [rng.randint(0, 11), rng.randint(0, 10**6), rng.randint(0, 10**6)],
                     "src_mode": mode})
+    # forged from scratch: hand-assembled part lists offered to every key configuration
+    frag = ["", "=", "==", "AAAA", "admin::sso", "x::y", "1700000000", "0", "::", "a", "QQ=="]
+    for _ in range(500 * n):
+        k = rng.choice([1, 2, 3, 3, 3, 4, 4, 5])
+        parts = [rng.choice(frag) if rng.random() < 0.8 else common.rnd_text(rng, 6, "ab:=|1") .replace("|", "") for _ in range(k)]
+        if rng.random() < 0.5:
+            parts[0] = str(rng.randint(10**8, 2 * 10**9))
+        out.append({"t": "forge", "mode": rng.choice(MODES), "cookie": "|".join(parts), "g": []})
     return out
 
 
@@ -125,6 +133,8 @@ def mutate(c, cookies):
 
 
 def _cookie_for(c):
+    if c["t"] == "forge":
+        return c["cookie"]
     if c["t"] == "rt":
         return _genuine(c["mode"], c)
     cookies = [_genuine(c["src_mode"], g) for g in c["g"]]
@@ -264,4 +274,4 @@ def classify(c, obs):
 def nontrivial(c, obs):
     if c["t"] == "rt":
         return any(ch in c["v"] + c["typ"] for ch in ":| ") or obs["parsed"] != "rejected"
-    return c["mut"][0] != 11
+    return c["t"] == "forge" or c["mut"][0] != 11
